@@ -1250,7 +1250,7 @@ func VH03g_burst() {
 	_, e2 := r.recvMsg()
 	verif.Assert(e2 == mangos.ErrProtoState, lab+"/second-recv-without-request")
 	verif.Reach("burst-epilogue")
-	vp.CloseCensus(sock, "C10/req/after-history")
+	sock.Close() // (no census here: 100 000 schedules; the census runs at the end of every other REQ harness)
 }
 
 // VH04e_burst: a request is outstanding on one of two connections and a Recv
